@@ -154,6 +154,11 @@ pub enum Fault {
     /// Byzantine issuer: payload edited and re-signed with a roster key (validly signed,
     /// structurally malformed tokens).
     ByzPayload { edit: PayloadEdit, key: String, alg: String },
+    /// A validly signed JWT whose payload is this *text* (things a JSON value cannot express:
+    /// repeated member names, numbers beyond f64 / u64, a byte-order mark, trailing data, deep
+    /// nesting, text that is not JSON at all). "{P}" in the text stands for the members of the
+    /// original payload.
+    RawPayload { text: String, key: String, alg: String },
     /// Genuine holder key, one field absent (`None`) or different.
     KbFieldEdit {
         key: String,
@@ -200,6 +205,7 @@ impl Fault {
             Fault::ResignKb { .. } => "resign_kb",
             Fault::KbFieldEdit { .. } => "kb_field",
             Fault::ByzPayload { .. } => "byzantine_issuer",
+            Fault::RawPayload { .. } => "byzantine_issuer_raw_payload_text",
         }
     }
     pub fn target(&self) -> String {
@@ -801,6 +807,18 @@ pub fn apply(f: &Fault, m: &mut Message, tokens: &[Message], w: &mut World, now:
             let claims = kb_claims(aud, nonce, now, &sd_hash_of(m));
             if let Some(kb) = w.byz_kb(key, alg, Some("kb+jwt"), &claims) {
                 m.kb = Some(kb);
+            }
+        }
+        Fault::RawPayload { text, key, alg } => {
+            let Ok(alg_e) = alg.parse::<jsonwebtoken::Algorithm>() else { return false };
+            let members = model::b64d(&m.p).and_then(|b| String::from_utf8(b).ok()).map(|t| t.trim().trim_start_matches('{').trim_end_matches('}').to_string()).unwrap_or_default();
+            let body = text.replace("{P}", &members);
+            let p = model::b64e(body.as_bytes());
+            let msg = format!("{}.{}", m.h, p);
+            if let Ok(sig) = jsonwebtoken::crypto::sign(msg.as_bytes(), &keys::enc_key(key), alg_e) {
+                w.signed_by.entry(key.clone()).or_default().push(format!("{}.{}", msg, sig));
+                m.p = p;
+                m.s = sig;
             }
         }
         Fault::ByzPayload { edit, key, alg } => {
